@@ -124,7 +124,7 @@ WriteAs(s, m, res) ==
          ELSE UNCHANGED <<S, acc, snt>>
 
 (* ------------------------------------------------------------- AddStream *)
-\* pool.addStream under pool.mu; who = "api" (AddStream/ReadStream call) or a peer (opening process)
+\* pool.addStream under pool.mu; called by AddStream / ReadStream (API) or by the opening process of a peer
 NewStream(p, tagseq, qs, k) ==
     [peer |-> p, kind |-> k, qsize |-> qs, tags |-> tagseq, live |-> TRUE, q |-> <<>>, qclosed |-> FALSE,
      infl |-> 0, w |-> "idle", r |-> "reading", cl |-> "open"]
